@@ -1,64 +1,1121 @@
+// C15: the filesystem reference store behaves like a name->value map across
+// Set / CheckAndSet / Remove / PackRefs sequences, git sees the same refs, and
+// packing never changes, drops or corrupts a reference.
+//
+// Monitor: a map model (refmodel.RefMap) is stepped alongside the real
+// filesystem.Storage on a real .git directory whose start state was written by
+// git (loose, packed with peel lines, packed+loose, old header formats) or by
+// go-git itself. After every operation go-git's Reference/IterReferences are
+// compared with the map; an on-disk screen of packed-refs/loose files plus
+// sampled positions trigger a comparison of `git for-each-ref`,
+// `git show-ref --head -d` and `git symbolic-ref` on the same directory with
+// the map (any git complaint on stderr is a failure).
 package main
 
 import (
+	"errors"
 	"fmt"
+	"math/rand"
 	"os"
-	"os/exec"
+	"path/filepath"
+	"sort"
+	"strings"
 
 	"github.com/go-git/go-billy/v6/osfs"
 	"github.com/go-git/go-git/v6/plumbing"
 	"github.com/go-git/go-git/v6/plumbing/cache"
+	"github.com/go-git/go-git/v6/storage"
 	"github.com/go-git/go-git/v6/storage/filesystem"
+
+	"verif/internal/gitx"
+	"verif/internal/refmodel"
+	"verif/internal/vf"
 )
 
-func sh(dir, s string) string {
-	cmd := exec.Command("bash", "-c", s)
-	cmd.Dir = dir
-	cmd.Env = append(os.Environ(), "GIT_AUTHOR_NAME=a", "GIT_AUTHOR_EMAIL=a@b", "GIT_COMMITTER_NAME=a", "GIT_COMMITTER_EMAIL=a@b")
-	b, _ := cmd.CombinedOutput()
-	return string(b)
+func main() {
+	vf.Main("C15", "exploration",
+		"case = start state (empty | git loose | git packed with peel lines | git packed+loose | packed --no-prune duplicates | re-headered/unsorted packed-refs) x generated sequence (6-40 ops) of go-git Set/CheckAndSet(right,wrong,absent old)/Remove/PackRefs/reopen and interleaved git pack-refs/update-ref over {HEAD, refs/heads/a, refs/heads/a/b, refs/heads/b, refs/tags/t, refs/tags/t2, refs/x/sym}; shape = start kind + sequence of (op kind, on-disk class of target); non-trivial = sequence touches a packed ref or packs; oracle = map model for go-git reads after every op, real git view of the same directory at start, after every PackRefs, at screen hits, at sampled positions and at the end",
+		run)
 }
 
-func main() {
-	d, _ := os.MkdirTemp("", "sp")
-	defer os.RemoveAll(d)
-	fmt.Print(sh(d, "git init -q . && git commit -q --allow-empty -m c0 && git commit -q --allow-empty -m c1"))
-	c1 := plumbing.NewHash(sh(d, "git rev-parse HEAD")[:40])
-	c0 := plumbing.NewHash(sh(d, "git rev-parse HEAD~1")[:40])
-	st := filesystem.NewStorage(osfs.New(d+"/.git"), cache.NewObjectLRUDefault())
-	a := plumbing.ReferenceName("refs/heads/a")
-	ab := plumbing.ReferenceName("refs/heads/a/b")
-	fmt.Println("set a/b", st.SetReference(plumbing.NewHashReference(ab, c0)))
-	fmt.Println("set a (loose a/b exists)", st.SetReference(plumbing.NewHashReference(a, c0)))
-	fmt.Println("rm a/b", st.RemoveReference(ab))
-	fmt.Println("set a (after rm a/b)", st.SetReference(plumbing.NewHashReference(a, c0)))
-	fmt.Print(sh(d, "ls -R .git/refs; git update-ref refs/heads/a "+c0.String()+"; echo rc=$?; git show-ref"))
-	// now a exists loose. set a/b
-	fmt.Println("set a/b (loose a exists)", st.SetReference(plumbing.NewHashReference(ab, c0)))
-	fmt.Println("pack", st.PackRefs())
-	fmt.Println("set a/b (packed a exists)", st.SetReference(plumbing.NewHashReference(ab, c1)))
-	it, err := st.IterReferences()
-	fmt.Println(err)
-	it.ForEach(func(r *plumbing.Reference) error { fmt.Println("  ", r); return nil })
-	fmt.Println("pack", st.PackRefs())
-	fmt.Print(sh(d, "ls -R .git/refs; cat .git/packed-refs"))
-	fmt.Println("set a (packed a, a/b; empty dir a)", st.SetReference(plumbing.NewHashReference(a, c1)))
-	r, err := st.Reference(a)
-	fmt.Println(r, err)
-	// CAS symbolic
-	s := plumbing.ReferenceName("refs/x/sym")
-	fmt.Println(st.SetReference(plumbing.NewSymbolicReference(s, a)))
-	fmt.Println("cas sym old wrong target", st.CheckAndSetReference(plumbing.NewSymbolicReference(s, ab), plumbing.NewSymbolicReference(s, "refs/heads/zzz")))
-	r, err = st.Reference(s)
-	fmt.Println(r, err)
-	fmt.Println("cas absent", st.CheckAndSetReference(plumbing.NewHashReference("refs/heads/q", c0), plumbing.NewHashReference("refs/heads/q", c1)))
-	_, err = st.IterReferences()
-	fmt.Println("iter:", err)
-	fmt.Print(sh(d, "git for-each-ref; echo rc=$?"))
-	fmt.Println("rm q", st.RemoveReference("refs/heads/q"))
-	_, err = st.IterReferences()
-	fmt.Println("iter:", err)
-	fmt.Println("rm absent", st.RemoveReference("refs/heads/zz"))
-	fmt.Println("HEAD rm", st.RemoveReference("HEAD"))
-	fmt.Print(sh(d, "ls .git"))
+// ---------------------------------------------------------------------------
+// template repositories (objects only)
+
+type pool struct {
+	format  string
+	dir     string            // template .git parent
+	commits []string          // commit ids
+	tags    []string          // tag object ids
+	peel    map[string]string // tag object id -> fully peeled id
+}
+
+func buildTemplate(c *vf.Ctx, g *gitx.Git, format string) *pool {
+	p := &pool{format: format, dir: c.TempDir("tmpl-" + format), peel: map[string]string{}}
+	a := []string{"init", "-q", "--template="}
+	if format == "sha256" {
+		a = append(a, "--object-format=sha256")
+	}
+	a = append(a, ".")
+	if r := g.Run(p.dir, a...); !r.OK() {
+		c.Must(fmt.Errorf("%s", r), "git init template")
+	}
+	tree, err := g.MustOut(p.dir, "hash-object", "-t", "tree", "-w", "/dev/null")
+	c.Must(err, "empty tree")
+	parent := ""
+	for i := 0; i < 4; i++ {
+		args := []string{"commit-tree", "-m", fmt.Sprintf("c%d", i)}
+		if parent != "" {
+			args = append(args, "-p", parent)
+		}
+		args = append(args, tree)
+		id, err := g.MustOut(p.dir, args...)
+		c.Must(err, "commit-tree")
+		p.commits = append(p.commits, id)
+		parent = id
+	}
+	mktag := func(obj, typ, name string) string {
+		in := fmt.Sprintf("object %s\ntype %s\ntag %s\ntagger T <t@example.com> 1700000000 +0000\n\nmsg\n", obj, typ, name)
+		r := g.RunIn(p.dir, []byte(in), "mktag")
+		if !r.OK() {
+			c.Must(fmt.Errorf("%s", r), "mktag")
+		}
+		return strings.TrimSpace(string(r.Out))
+	}
+	t0 := mktag(p.commits[0], "commit", "t0")
+	t1 := mktag(p.commits[1], "commit", "t1")
+	tt := mktag(t0, "tag", "tt")
+	p.tags = []string{t0, t1, tt}
+	p.peel[t0] = p.commits[0]
+	p.peel[t1] = p.commits[1]
+	p.peel[tt] = p.commits[0]
+	return p
+}
+
+func copyTree(src, dst string) error {
+	return filepath.Walk(src, func(path string, info os.FileInfo, err error) error {
+		if err != nil {
+			return err
+		}
+		rel, _ := filepath.Rel(src, path)
+		target := filepath.Join(dst, rel)
+		if info.IsDir() {
+			return os.MkdirAll(target, 0o755)
+		}
+		b, err := os.ReadFile(path)
+		if err != nil {
+			return err
+		}
+		return os.WriteFile(target, b, 0o644)
+	})
+}
+
+// ---------------------------------------------------------------------------
+// on-disk inspection (diagnosis and screening only; never decides alone)
+
+type packedRec struct {
+	line string // "<hex> <name>" or malformed
+	name string
+	hash string
+	peel string // without '^'; "" if none
+}
+
+type disk struct {
+	header   string
+	recs     []packedRec
+	bad      []string          // lines that are neither header, ref line nor a peel line attached to a ref line
+	loose    map[string]string // name -> trimmed content ("" = empty file)
+	emptyDir map[string]bool   // ref-name paths that are directories without any file below
+	dirs     map[string]bool   // ref-name paths that are directories
+}
+
+// shadow tells what sits on the loose path of a name that has no loose file:
+// "" (nothing), "empty-dir", "nonempty-dir", "parent-is-file".
+func (d *disk) shadow(name string) string {
+	if d.dirs[name] {
+		if d.emptyDir[name] {
+			return "empty-dir"
+		}
+		return "nonempty-dir"
+	}
+	parts := strings.Split(name, "/")
+	for i := 1; i < len(parts); i++ {
+		if _, ok := d.loose[strings.Join(parts[:i], "/")]; ok {
+			return "parent-is-file"
+		}
+	}
+	return ""
+}
+
+func isHex(s string, n int) bool {
+	if len(s) != n {
+		return false
+	}
+	for i := 0; i < len(s); i++ {
+		ch := s[i]
+		if !(ch >= '0' && ch <= '9' || ch >= 'a' && ch <= 'f') {
+			return false
+		}
+	}
+	return true
+}
+
+func readDisk(gitdir string, hexLen int) *disk {
+	d := &disk{loose: map[string]string{}, emptyDir: map[string]bool{}, dirs: map[string]bool{}}
+	if b, err := os.ReadFile(filepath.Join(gitdir, "packed-refs")); err == nil {
+		lines := strings.Split(string(b), "\n")
+		if len(lines) > 0 && lines[len(lines)-1] == "" {
+			lines = lines[:len(lines)-1]
+		}
+		prevIsRef := false
+		for i, ln := range lines {
+			switch {
+			case i == 0 && strings.HasPrefix(ln, "# pack-refs with:"):
+				d.header = ln
+				prevIsRef = false
+			case strings.HasPrefix(ln, "^"):
+				if prevIsRef && isHex(ln[1:], hexLen) && d.recs[len(d.recs)-1].peel == "" {
+					d.recs[len(d.recs)-1].peel = ln[1:]
+				} else {
+					d.bad = append(d.bad, ln)
+				}
+				prevIsRef = prevIsRef && false
+				// a second '^' line after the same ref is not attached to anything
+			default:
+				ws := strings.Split(ln, " ")
+				if len(ws) == 2 && isHex(ws[0], hexLen) && strings.HasPrefix(ws[1], "refs/") {
+					d.recs = append(d.recs, packedRec{line: ln, name: ws[1], hash: ws[0]})
+					prevIsRef = true
+				} else {
+					d.bad = append(d.bad, ln)
+					prevIsRef = false
+				}
+			}
+		}
+	}
+	root := filepath.Join(gitdir, "refs")
+	var walk func(dir string) int
+	walk = func(dir string) int {
+		ents, _ := os.ReadDir(dir)
+		files := 0
+		for _, e := range ents {
+			p := filepath.Join(dir, e.Name())
+			if e.IsDir() {
+				n := walk(p)
+				rel, _ := filepath.Rel(gitdir, p)
+				d.dirs[filepath.ToSlash(rel)] = true
+				if n == 0 {
+					d.emptyDir[filepath.ToSlash(rel)] = true
+				}
+				files += n
+				continue
+			}
+			files++
+			b, _ := os.ReadFile(p)
+			rel, _ := filepath.Rel(gitdir, p)
+			d.loose[filepath.ToSlash(rel)] = strings.TrimSpace(string(b))
+		}
+		return files
+	}
+	walk(root)
+	if b, err := os.ReadFile(filepath.Join(gitdir, "HEAD")); err == nil {
+		d.loose["HEAD"] = strings.TrimSpace(string(b))
+	}
+	return d
+}
+
+func (d *disk) packed(name string) *packedRec {
+	for i := range d.recs {
+		if d.recs[i].name == name {
+			return &d.recs[i]
+		}
+	}
+	return nil
+}
+
+// class of a name: absent | loose | packed | both ; "+peel" when its packed record carries a peel line.
+func (d *disk) class(name string) string {
+	_, l := d.loose[name]
+	p := d.packed(name)
+	s := "absent"
+	switch {
+	case l && p != nil:
+		s = "both"
+	case l:
+		s = "loose"
+	case p != nil:
+		s = "packed"
+	}
+	if p != nil && p.peel != "" {
+		s += "+peel"
+	}
+	return s
+}
+
+// screen returns reasons why git might not read this directory the way the map says.
+func (d *disk) screen(p *pool) []string {
+	var out []string
+	for _, b := range d.bad {
+		out = append(out, "packed-refs line not attributable: "+b)
+	}
+	sorted := strings.Contains(d.header, " sorted")
+	fully := strings.Contains(d.header, " fully-peeled")
+	for i, r := range d.recs {
+		if sorted && i > 0 && d.recs[i-1].name >= r.name {
+			out = append(out, "header says sorted but "+d.recs[i-1].name+" >= "+r.name)
+		}
+		want := p.peel[r.hash]
+		if r.peel != "" && r.peel != want {
+			out = append(out, "peel line of "+r.name+" does not match its value")
+		}
+		if r.peel == "" && want != "" && fully {
+			out = append(out, "fully-peeled header but tag-valued "+r.name+" has no peel line")
+		}
+	}
+	for n, v := range d.loose {
+		if v == "" {
+			out = append(out, "empty loose ref file "+n)
+		}
+	}
+	return out
+}
+
+// ---------------------------------------------------------------------------
+// one sequence
+
+type feat struct {
+	Nested   bool   `json:"nested"`    // refs/heads/a/b in the universe
+	Sym      bool   `json:"sym"`       // refs/x/sym (symbolic ref under refs/) in the universe
+	RmPeeled bool   `json:"rm_peeled"` // may remove refs whose packed record has a peel line
+	CasMiss  bool   `json:"cas_miss"`  // may issue failing CAS on names without a loose file
+	CasSym   bool   `json:"cas_sym"`   // may issue CAS with a symbolic old value whose target differs
+	GitOps   bool   `json:"git_ops"`   // interleave git pack-refs/update-ref
+	Format   string `json:"format"`
+}
+
+type seq struct {
+	c          *vf.Ctx
+	g          *gitx.Git
+	p          *pool
+	r          *rand.Rand
+	idx        int
+	f          feat
+	start      string
+	work       string // worktree dir
+	gitdir     string
+	st         *filesystem.Storage
+	m          refmodel.RefMap
+	uni        []string
+	log        []string
+	shape      []string
+	nontrivial bool
+	hexLen     int
+	views      int
+}
+
+type failure struct {
+	clause string
+	detail string
+}
+
+func (s *seq) open() {
+	if s.st != nil {
+		_ = s.st.Close()
+	}
+	s.st = filesystem.NewStorage(osfs.New(s.gitdir), cache.NewObjectLRUDefault())
+}
+
+func (s *seq) toRef(r refmodel.Ref) *plumbing.Reference {
+	if r.Sym {
+		return plumbing.NewSymbolicReference(plumbing.ReferenceName(r.Name), plumbing.ReferenceName(r.Target))
+	}
+	return plumbing.NewHashReference(plumbing.ReferenceName(r.Name), plumbing.NewHash(r.Hash))
+}
+
+func fromRef(r *plumbing.Reference) refmodel.Ref {
+	if r.Type() == plumbing.SymbolicReference {
+		return refmodel.Ref{Name: r.Name().String(), Sym: true, Target: r.Target().String()}
+	}
+	return refmodel.Ref{Name: r.Name().String(), Hash: r.Hash().String()}
+}
+
+// randomValue picks a valid value for name.
+func (s *seq) randomValue(name string) refmodel.Ref {
+	r := s.r
+	switch {
+	case name == "HEAD":
+		if r.Intn(4) == 0 {
+			return refmodel.Ref{Name: name, Hash: s.p.commits[r.Intn(len(s.p.commits))]}
+		}
+		t := []string{"refs/heads/a", "refs/heads/b", "refs/heads/master"}
+		if s.f.Nested {
+			t = append(t, "refs/heads/a/b")
+		}
+		return refmodel.Ref{Name: name, Sym: true, Target: t[r.Intn(len(t))]}
+	case name == "refs/x/sym":
+		if r.Intn(6) == 0 {
+			return refmodel.Ref{Name: name, Hash: s.p.commits[r.Intn(len(s.p.commits))]}
+		}
+		t := []string{"refs/heads/a", "refs/heads/b", "refs/tags/t"}
+		return refmodel.Ref{Name: name, Sym: true, Target: t[r.Intn(len(t))]}
+	case strings.HasPrefix(name, "refs/tags/"):
+		if r.Intn(3) == 0 {
+			return refmodel.Ref{Name: name, Hash: s.p.commits[r.Intn(len(s.p.commits))]}
+		}
+		return refmodel.Ref{Name: name, Hash: s.p.tags[r.Intn(len(s.p.tags))]}
+	default:
+		return refmodel.Ref{Name: name, Hash: s.p.commits[r.Intn(len(s.p.commits))]}
+	}
+}
+
+func (s *seq) otherHash(not string) string {
+	all := append(append([]string{}, s.p.commits...), s.p.tags...)
+	for {
+		h := all[s.r.Intn(len(all))]
+		if h != not {
+			return h
+		}
+	}
+}
+
+// gitSet writes one ref with git (start states and interleaved git ops).
+func (s *seq) gitSet(v refmodel.Ref) bool {
+	var res gitx.Result
+	if v.Sym {
+		res = s.g.Run(s.work, "symbolic-ref", v.Name, v.Target)
+	} else {
+		res = s.g.Run(s.work, "update-ref", "--no-deref", v.Name, v.Hash)
+	}
+	return res.OK()
+}
+
+func (s *seq) setupStart() {
+	r := s.r
+	kinds := []string{"empty", "git-loose", "git-packed", "git-packed+loose", "git-packed-noprune", "reheadered"}
+	s.start = kinds[r.Intn(len(kinds))]
+	s.m = refmodel.RefMap{"HEAD": {Name: "HEAD", Sym: true, Target: "refs/heads/master"}}
+	if s.start == "empty" {
+		return
+	}
+	populate := func(prob int) {
+		var batch strings.Builder
+		var hashRefs, symRefs []refmodel.Ref
+		trial := s.m.Clone()
+		for _, n := range s.uni {
+			if r.Intn(100) >= prob {
+				continue
+			}
+			v := s.randomValue(n)
+			if _, exists := trial[n]; !exists && trial.DFConflict(n) {
+				continue
+			}
+			trial.Set(v)
+			if v.Sym || n == "HEAD" {
+				symRefs = append(symRefs, v) // one git call each (HEAD cannot share a transaction with its referent)
+			} else {
+				hashRefs = append(hashRefs, v)
+				fmt.Fprintf(&batch, "option no-deref\nupdate %s %s\n", v.Name, v.Hash)
+			}
+		}
+		if len(hashRefs) > 0 {
+			if res := s.g.RunIn(s.work, []byte(batch.String()), "update-ref", "--stdin"); !res.OK() {
+				s.c.Broken("start state: git update-ref --stdin refused %v: %s", hashRefs, res)
+				return
+			}
+			for _, v := range hashRefs {
+				s.m.Set(v)
+			}
+		}
+		for _, v := range symRefs {
+			if !s.gitSet(v) {
+				s.c.Broken("start state: git refused %v", v)
+				continue
+			}
+			s.m.Set(v)
+		}
+	}
+	populate(75)
+	if s.start == "git-loose" {
+		return
+	}
+	args := []string{"pack-refs", "--all"}
+	if s.start == "git-packed-noprune" {
+		args = append(args, "--no-prune")
+	}
+	if res := s.g.Run(s.work, args...); !res.OK() {
+		s.c.Broken("start state: git pack-refs: %s", res)
+	}
+	switch s.start {
+	case "git-packed+loose", "git-packed-noprune":
+		populate(40)
+		// git deletes a packed ref
+		for _, n := range s.uni {
+			if n == "HEAD" || r.Intn(8) != 0 {
+				continue
+			}
+			if _, ok := s.m[n]; ok {
+				if res := s.g.Run(s.work, "update-ref", "--no-deref", "-d", n); res.OK() {
+					s.m.Remove(n)
+				}
+			}
+		}
+	case "reheadered":
+		// packed-refs as older git / other writers leave it: no header or a header without
+		// "sorted"/"fully-peeled", records in arbitrary order (peel lines stay attached).
+		d := readDisk(s.gitdir, s.hexLen)
+		recs := append([]packedRec{}, d.recs...)
+		r.Shuffle(len(recs), func(i, j int) { recs[i], recs[j] = recs[j], recs[i] })
+		var b strings.Builder
+		switch r.Intn(3) {
+		case 0:
+		case 1:
+			b.WriteString("# pack-refs with: peeled \n")
+		case 2:
+			b.WriteString("# pack-refs with: peeled fully-peeled \n")
+		}
+		for _, rec := range recs {
+			b.WriteString(rec.line + "\n")
+			if rec.peel != "" {
+				b.WriteString("^" + rec.peel + "\n")
+			}
+		}
+		if len(recs) > 0 {
+			s.c.Must(os.WriteFile(filepath.Join(s.gitdir, "packed-refs"), []byte(b.String()), 0o644), "rewrite packed-refs")
+		}
+		if r.Intn(2) == 0 {
+			populate(30)
+		}
+	}
+}
+
+// ---------------------------------------------------------------------------
+// git's view of the directory vs the map
+
+type view struct {
+	forEach []string
+	showRef []string
+	syms    map[string]string // name -> target ("" = not symbolic)
+	stderr  string
+}
+
+func (s *seq) expectedView() view {
+	v := view{syms: map[string]string{}}
+	for _, n := range s.m.Names() {
+		ref := s.m[n]
+		h, ok := s.m.Resolve(n)
+		if n == "HEAD" {
+			if ok {
+				v.showRef = append(v.showRef, h+" HEAD")
+			}
+			continue
+		}
+		if !ok {
+			continue
+		}
+		sym := ""
+		if ref.Sym {
+			sym = ref.Target
+		}
+		v.forEach = append(v.forEach, strings.TrimRight(n+" "+h+" "+sym, " "))
+		v.showRef = append(v.showRef, h+" "+n)
+		if pl, isTag := s.p.peel[h]; isTag {
+			v.showRef = append(v.showRef, pl+" "+n+"^{}")
+		}
+	}
+	for _, n := range []string{"HEAD", "refs/x/sym"} {
+		if ref, ok := s.m[n]; ok {
+			if ref.Sym {
+				v.syms[n] = ref.Target
+			} else {
+				v.syms[n] = ""
+			}
+		}
+	}
+	sort.Strings(v.forEach)
+	sort.Strings(v.showRef)
+	return v
+}
+
+func splitLines(b []byte) []string {
+	var out []string
+	for _, l := range strings.Split(string(b), "\n") {
+		l = strings.TrimRight(l, " ")
+		if l != "" {
+			out = append(out, l)
+		}
+	}
+	sort.Strings(out)
+	return out
+}
+
+func (s *seq) gitView(full bool) (view, bool) {
+	v := view{syms: map[string]string{}}
+	var errs []string
+	fe := s.g.Run(s.work, "for-each-ref", "--format=%(refname) %(objectname) %(symref)")
+	sr := s.g.Run(s.work, "show-ref", "--head", "-d")
+	if fe.Timeout || sr.Timeout {
+		return v, false
+	}
+	v.forEach = splitLines(fe.Out)
+	v.showRef = splitLines(sr.Out)
+	if fe.Code != 0 {
+		errs = append(errs, fmt.Sprintf("for-each-ref exit %d", fe.Code))
+	}
+	if sr.Code != 0 && !(sr.Code == 1 && len(sr.Out) == 0 && len(sr.Err) == 0) {
+		errs = append(errs, fmt.Sprintf("show-ref exit %d", sr.Code))
+	}
+	if len(fe.Err) > 0 {
+		errs = append(errs, "for-each-ref: "+strings.TrimSpace(string(fe.Err)))
+	}
+	if len(sr.Err) > 0 {
+		errs = append(errs, "show-ref: "+strings.TrimSpace(string(sr.Err)))
+	}
+	for _, n := range []string{"HEAD", "refs/x/sym"} {
+		if _, ok := s.m[n]; !ok || (!full && n != "HEAD") {
+			continue
+		}
+		res := s.g.Run(s.work, "symbolic-ref", "-q", n)
+		if res.Timeout {
+			return v, false
+		}
+		switch {
+		case res.Code == 0:
+			v.syms[n] = strings.TrimSpace(string(res.Out))
+		case res.Code == 1 && len(res.Err) == 0:
+			v.syms[n] = ""
+		default:
+			errs = append(errs, fmt.Sprintf("symbolic-ref %s exit %d: %s", n, res.Code, strings.TrimSpace(string(res.Err))))
+		}
+	}
+	v.stderr = strings.Join(errs, " | ")
+	s.views++
+	return v, true
+}
+
+func diffLines(a, b []string) string {
+	am, bm := map[string]bool{}, map[string]bool{}
+	for _, x := range a {
+		am[x] = true
+	}
+	for _, x := range b {
+		bm[x] = true
+	}
+	var out []string
+	for _, x := range a {
+		if !bm[x] {
+			out = append(out, "model-only{"+x+"}")
+		}
+	}
+	for _, x := range b {
+		if !am[x] {
+			out = append(out, "git-only{"+x+"}")
+		}
+	}
+	if len(a) != len(b) && len(out) == 0 {
+		out = append(out, fmt.Sprintf("multiplicity differs: model %d lines, git %d lines", len(a), len(b)))
+	}
+	return strings.Join(out, " ")
+}
+
+// compareGit returns nil when git's view of the directory equals the map.
+func (s *seq) compareGit(full bool) *failure {
+	got, ok := s.gitView(full)
+	if !ok {
+		s.c.Inconclusive("git timed out in sequence %d", s.idx)
+		return nil
+	}
+	if got.stderr != "" {
+		return &failure{"git-error", got.stderr}
+	}
+	want := s.expectedView()
+	if d := diffLines(want.forEach, got.forEach); d != "" {
+		return &failure{"git-view", "for-each-ref: " + d}
+	}
+	if d := diffLines(want.showRef, got.showRef); d != "" {
+		return &failure{"git-view", "show-ref --head -d: " + d}
+	}
+	for n, t := range want.syms {
+		if g, asked := got.syms[n]; asked && g != t {
+			return &failure{"git-view", fmt.Sprintf("symbolic-ref %s: model %q git %q", n, t, got.syms[n])}
+		}
+	}
+	s.c.Count("git_views_agreeing", 1)
+	return nil
+}
+
+// ---------------------------------------------------------------------------
+// go-git reads vs the map
+
+func (s *seq) compareReads() *failure {
+	names := append(append([]string{}, s.uni...), "refs/heads/never")
+	for _, n := range names {
+		var ref *plumbing.Reference
+		var err error
+		if p, st := vf.Catch(func() { ref, err = s.st.Reference(plumbing.ReferenceName(n)) }); p != nil {
+			return &failure{"panic", fmt.Sprintf("Reference(%s) panicked: %v\n%s", n, p, st)}
+		}
+		s.c.Count("reads", 1)
+		want, ok := s.m[n]
+		switch {
+		case ok && err != nil:
+			return &failure{"read", fmt.Sprintf("Reference(%s): error %q, map holds %s", n, err, want.Val())}
+		case ok && fromRef(ref) != want:
+			return &failure{"read", fmt.Sprintf("Reference(%s) = %s, map holds %s", n, fromRef(ref).Val(), want.Val())}
+		case !ok && err == nil:
+			return &failure{"read", fmt.Sprintf("Reference(%s) = %s, map has no such name", n, fromRef(ref).Val())}
+		case !ok && !errors.Is(err, plumbing.ErrReferenceNotFound):
+			return &failure{"read", fmt.Sprintf("Reference(%s): error %q instead of reference-not-found", n, err)}
+		}
+	}
+	var got []string
+	var err error
+	if p, st := vf.Catch(func() {
+		it, e := s.st.IterReferences()
+		if e != nil {
+			err = e
+			return
+		}
+		err = it.ForEach(func(r *plumbing.Reference) error {
+			x := fromRef(r)
+			got = append(got, x.Name+" "+x.Val())
+			return nil
+		})
+	}); p != nil {
+		return &failure{"panic", fmt.Sprintf("IterReferences panicked: %v\n%s", p, st)}
+	}
+	s.c.Count("listings", 1)
+	if err != nil {
+		return &failure{"iter", fmt.Sprintf("IterReferences: error %q", err)}
+	}
+	sort.Strings(got)
+	want := s.m.Lines()
+	sort.Strings(want)
+	if d := diffLines(want, got); d != "" {
+		return &failure{"iter", "IterReferences: " + strings.ReplaceAll(d, "git-only", "gogit-only")}
+	}
+	return nil
+}
+
+// ---------------------------------------------------------------------------
+// operations
+
+type op struct {
+	kind string // set cas remove pack reopen git-pack git-pack-noprune git-update git-delete
+	name string
+	val  refmodel.Ref
+	old  *refmodel.Ref
+	cas  refmodel.CASOutcome
+}
+
+func (o op) String() string {
+	switch o.kind {
+	case "set", "git-update":
+		return fmt.Sprintf("%s %s", o.kind, o.val)
+	case "cas":
+		return fmt.Sprintf("cas %s old=%s (model: %s)", o.val, o.old.Val(), o.cas)
+	case "remove", "git-delete":
+		return o.kind + " " + o.name
+	}
+	return o.kind
+}
+
+func (s *seq) pickOp(d *disk) op {
+	r := s.r
+	for tries := 0; tries < 50; tries++ {
+		x := r.Intn(100)
+		name := s.uni[r.Intn(len(s.uni))]
+		cur, present := s.m[name]
+		switch {
+		case x < 30:
+			return op{kind: "set", name: name, val: s.randomValue(name)}
+		case x < 52:
+			o := op{kind: "cas", name: name, val: s.randomValue(name)}
+			_, hasLoose := d.loose[name]
+			y := r.Intn(100)
+			switch {
+			case present && y < 55:
+				old := cur
+				o.old = &old
+			case present && cur.Sym && s.f.CasSym && y < 70:
+				o.old = &refmodel.Ref{Name: name, Sym: true, Target: "refs/heads/other"}
+			case present:
+				if !hasLoose && !s.f.CasMiss {
+					continue
+				}
+				h := ""
+				if !cur.Sym {
+					h = cur.Hash
+				}
+				o.old = &refmodel.Ref{Name: name, Hash: s.otherHash(h)}
+			default:
+				if !s.f.CasMiss {
+					continue
+				}
+				o.old = &refmodel.Ref{Name: name, Hash: s.otherHash("")}
+			}
+			o.cas = s.m.CAS(*o.old)
+			return o
+		case x < 68:
+			if name == "HEAD" {
+				continue
+			}
+			if p := d.packed(name); p != nil && p.peel != "" && !s.f.RmPeeled {
+				continue
+			}
+			if !present && r.Intn(3) != 0 {
+				continue
+			}
+			return op{kind: "remove", name: name}
+		case x < 80:
+			return op{kind: "pack"}
+		case x < 84:
+			return op{kind: "reopen"}
+		case !s.f.GitOps:
+			continue
+		case x < 89:
+			if r.Intn(2) == 0 {
+				return op{kind: "git-pack-noprune"}
+			}
+			return op{kind: "git-pack"}
+		case x < 96:
+			return op{kind: "git-update", name: name, val: s.randomValue(name)}
+		default:
+			if name == "HEAD" || !present {
+				continue
+			}
+			return op{kind: "git-delete", name: name}
+		}
+	}
+	return op{kind: "pack"}
+}
+
+func packSummary(d *disk) string {
+	l, p := 0, len(d.recs)
+	for n := range d.loose {
+		if n != "HEAD" {
+			l++
+		}
+	}
+	f := func(n int) string {
+		switch {
+		case n == 0:
+			return "0"
+		case n == 1:
+			return "1"
+		}
+		return "n"
+	}
+	return "loose" + f(l) + "-packed" + f(p)
+}
+
+// apply runs one op; returns a failure (first failing clause) or nil.
+func (s *seq) apply(o op, pre *disk) (*failure, string) {
+	cls := ""
+	if o.name != "" {
+		cls = pre.class(o.name)
+	} else {
+		cls = packSummary(pre)
+	}
+	s.c.Seen("op_x_class", o.kind+":"+cls)
+	s.c.Count("op_"+o.kind, 1)
+	if strings.Contains(cls, "packed") || strings.Contains(cls, "both") || o.kind == "pack" || o.kind == "git-pack" {
+		s.nontrivial = true
+	}
+	var err error
+	run := func(f func() error) *failure {
+		if p, st := vf.Catch(func() { err = f() }); p != nil {
+			return &failure{"panic", fmt.Sprintf("%s panicked: %v\n%s", o, p, st)}
+		}
+		return nil
+	}
+	switch o.kind {
+	case "set":
+		if f := run(func() error { return s.st.SetReference(s.toRef(o.val)) }); f != nil {
+			return f, cls
+		}
+		_, exists := s.m[o.name]
+		conflict := !exists && s.m.DFConflict(o.name)
+		if err != nil {
+			if !conflict {
+				return &failure{"op-refused", fmt.Sprintf("SetReference(%s) failed: %v (%s)", o.val, err, map[bool]string{true: "the name already exists in the store", false: "no conflicting name exists"}[exists])}, cls
+			}
+			s.c.Count("df_conflict_refused", 1)
+		} else {
+			if conflict {
+				s.c.Count("df_conflict_accepted", 1)
+			}
+			s.m.Set(o.val)
+		}
+	case "cas":
+		if f := run(func() error { return s.st.CheckAndSetReference(s.toRef(o.val), s.toRef(*o.old)) }); f != nil {
+			return f, cls
+		}
+		s.c.Seen("cas_outcomes", fmt.Sprintf("%s:%v", o.cas, err != nil))
+		switch o.cas {
+		case refmodel.CASMatch:
+			if err != nil {
+				return &failure{"op-refused", fmt.Sprintf("CheckAndSetReference(%s, old=%s) failed: %v although old equals the stored value", o.val, o.old.Val(), err)}, cls
+			}
+			s.m.Set(o.val)
+		default:
+			if err == nil {
+				return &failure{"op-accepted", fmt.Sprintf("CheckAndSetReference(%s, old=%s) succeeded although the stored value is %s", o.val, o.old.Val(), curVal(s.m, o.name))}, cls
+			}
+			if o.cas == refmodel.CASMismatch && !errors.Is(err, storage.ErrReferenceHasChanged) {
+				s.c.Count("cas_mismatch_other_error", 1)
+			}
+		}
+	case "remove":
+		if f := run(func() error { return s.st.RemoveReference(plumbing.ReferenceName(o.name)) }); f != nil {
+			return f, cls
+		}
+		if err != nil {
+			if _, exists := s.m[o.name]; exists {
+				return &failure{"op-refused", fmt.Sprintf("RemoveReference(%s) failed: %v; the reference stays", o.name, err)}, cls
+			}
+			s.c.Count("remove_absent_returned_error", 1)
+		}
+		s.m.Remove(o.name)
+	case "pack":
+		if f := run(func() error { return s.st.PackRefs() }); f != nil {
+			return f, cls
+		}
+		if err != nil {
+			return &failure{"op-refused", fmt.Sprintf("PackRefs failed: %v", err)}, cls
+		}
+	case "reopen":
+		s.open()
+	case "git-pack", "git-pack-noprune":
+		args := []string{"pack-refs", "--all"}
+		if o.kind == "git-pack-noprune" {
+			args = append(args, "--no-prune")
+		}
+		if res := s.g.Run(s.work, args...); !res.OK() {
+			return &failure{"git-error", fmt.Sprintf("git pack-refs failed on the directory go-git maintained: %s", res)}, cls
+		}
+	case "git-update":
+		if s.gitSet(o.val) {
+			s.m.Set(o.val)
+		} else {
+			s.c.Count("git_update_refused", 1)
+		}
+	case "git-delete":
+		if res := s.g.Run(s.work, "update-ref", "--no-deref", "-d", o.name); res.OK() {
+			s.m.Remove(o.name)
+		} else {
+			s.c.Count("git_delete_refused", 1)
+		}
+	}
+	return nil, cls
+}
+
+func curVal(m refmodel.RefMap, n string) string {
+	if r, ok := m[n]; ok {
+		return r.Val()
+	}
+	return "<absent>"
+}
+
+// key derives the seed-independent finding key from the failing clause, the op and on-disk diagnosis.
+func (s *seq) key(f *failure, o op, cls string, pre, post *disk) string {
+	gitClause := f.clause == "git-error" || f.clause == "git-view"
+	switch o.kind {
+	case "pack":
+		if f.clause == "read" || f.clause == "iter" || gitClause {
+			for _, b := range post.bad {
+				if strings.HasPrefix(b, "ref: ") {
+					return "packrefs:symbolic-ref-line-in-packed-refs"
+				}
+			}
+		}
+	case "remove":
+		if gitClause {
+			if p := pre.packed(o.name); p != nil && p.peel != "" && post.packed(o.name) == nil {
+				// the record is gone; is its peel line still there (now unattached or attached to the previous record)?
+				before := 0
+				for _, r := range pre.recs {
+					if r.peel == p.peel {
+						before++
+					}
+				}
+				after := 0
+				for _, r := range post.recs {
+					if r.peel == p.peel {
+						after++
+					}
+				}
+				for _, b := range post.bad {
+					if b == "^"+p.peel {
+						after++
+					}
+				}
+				if after == before {
+					return "remove:peel-line-of-removed-packed-tag-kept"
+				}
+			}
+		}
+	case "cas":
+		if f.clause == "iter" || gitClause {
+			_, hadLoose := pre.loose[o.name]
+			if v, has := post.loose[o.name]; has && v == "" && !hadLoose && o.cas != refmodel.CASMatch {
+				return "cas-failed:empty-loose-ref-file-left"
+			}
+		}
+		if f.clause == "op-accepted" && o.old.Sym {
+			if cur, ok := s.m[o.name]; ok && cur.Sym && cur.Target != o.old.Target {
+				return "cas-accepted:symbolic-old-target-differs"
+			}
+		}
+	}
+	if f.clause == "op-refused" && (o.kind == "set" || o.kind == "cas" || o.kind == "remove") {
+		verb := "write"
+		if o.kind == "remove" {
+			verb = "remove"
+		}
+		switch pre.shadow(o.name) {
+		case "empty-dir":
+			return verb + "-refused:empty-directory-at-ref-path"
+		case "nonempty-dir", "parent-is-file":
+			// only reachable after go-git itself accepted a name nested below / above a packed-only ref
+			if strings.HasPrefix(cls, "packed") {
+				return verb + "-refused:packed-ref-shadowed-by-nested-loose-ref"
+			}
+		}
+	}
+	k := f.clause + ":" + o.kind
+	if cls != "" {
+		k += ":" + cls
+	}
+	return k
+}
+
+func (s *seq) dump(d *disk) map[string]any {
+	var packed []string
+	if b, err := os.ReadFile(filepath.Join(s.gitdir, "packed-refs")); err == nil {
+		packed = strings.Split(strings.TrimRight(string(b), "\n"), "\n")
+	}
+	return map[string]any{"sequence": s.idx, "start": s.start, "features": s.f, "ops": s.log,
+		"model": s.m.Lines(), "packed_refs": packed, "loose": d.loose}
+}
+
+func (s *seq) run() {
+	c := s.c
+	s.work = c.TempDir(fmt.Sprintf("seq%d", s.idx))
+	defer os.RemoveAll(s.work)
+	s.gitdir = filepath.Join(s.work, ".git")
+	c.Must(copyTree(filepath.Join(s.p.dir, ".git"), s.gitdir), "copy template")
+	s.hexLen = len(s.p.commits[0])
+	s.uni = []string{"HEAD", "refs/heads/a", "refs/heads/b", "refs/tags/t", "refs/tags/t2"}
+	if s.f.Nested {
+		s.uni = append(s.uni, "refs/heads/a/b")
+	}
+	if s.f.Sym {
+		s.uni = append(s.uni, "refs/x/sym")
+	}
+	s.setupStart()
+	c.Seen("start_kinds", s.start)
+	s.open()
+	defer func() { _ = s.st.Close() }()
+
+	// the start state was written by git alone: git must agree with the map (validates the
+	// rendering of git's view), and go-git must read it like the map.
+	if f := s.compareGit(true); f != nil {
+		c.Broken("MODEL-MISMATCH: start state %s of sequence %d: git view differs from the map: %s: %s", s.start, s.idx, f.clause, f.detail)
+		return
+	}
+	c.Count("git_confirmations", 1)
+	d0 := readDisk(s.gitdir, s.hexLen)
+	if f := s.compareReads(); f != nil {
+		c.Fail("start:"+f.clause+":"+s.start, fmt.Sprintf("go-git reads a %s start state written by git differently from git: %s", s.start, f.detail), s.dump(d0))
+		c.Eval(s.start+"|start-fail", true)
+		return
+	}
+
+	n := 6 + s.r.Intn(35)
+	pre := d0
+	for i := 0; i < n; i++ {
+		o := s.pickOp(pre)
+		s.log = append(s.log, o.String())
+		f, cls := s.apply(o, pre)
+		s.shape = append(s.shape, o.kind+":"+cls)
+		post := readDisk(s.gitdir, s.hexLen)
+		if f == nil {
+			f = s.compareReads()
+		}
+		if f == nil {
+			flags := post.screen(s.p)
+			sampled := s.r.Intn(100) < 8
+			if len(flags) > 0 || o.kind == "pack" || sampled || i == n-1 {
+				if len(flags) > 0 {
+					c.Count("screen_hits", 1)
+				}
+				f = s.compareGit(i == n-1)
+				if f == nil {
+					c.Count("git_confirmations", 1)
+					if len(flags) > 0 {
+						c.Count("screen_hits_git_unconcerned", 1)
+					}
+				}
+			}
+		}
+		if f != nil {
+			key := s.key(f, o, cls, pre, post)
+			what := fmt.Sprintf("after op %d (%s; target on disk before: %s; start %s): %s", i+1, o, cls, s.start, f.detail)
+			// for a go-git read disagreement add git's opinion of the same directory to the report
+			if f.clause == "read" || f.clause == "iter" {
+				if gf := s.compareGit(true); gf != nil {
+					what += " || git on the same directory: " + gf.clause + ": " + gf.detail
+				} else {
+					what += " || git's view of the same directory equals the map"
+				}
+			}
+			c.Fail(key, what, s.dump(post))
+			c.Count("sequences_stopped_at_failure", 1)
+			break
+		}
+		pre = post
+	}
+	c.Count("ops", len(s.log))
+	c.Eval(s.start+"|"+vf.ShapeHash(s.shape), s.nontrivial)
+	if s.idx < 2 {
+		c.Sample(map[string]any{"sequence": s.idx, "start": s.start, "features": s.f, "ops": s.log, "final_model": s.m.Lines()})
+	}
+}
+
+func run(c *vf.Ctx) {
+	g := gitx.New(c.Scratch)
+	pools := map[string]*pool{"sha1": buildTemplate(c, g, "sha1"), "sha256": buildTemplate(c, g, "sha256")}
+	nSeq := c.N(200, 4000)
+	vf.Parallel(nSeq, 6, func(i int) {
+		r := c.Rand("seq", i)
+		f := feat{
+			Nested:   r.Intn(100) < 50,
+			Sym:      r.Intn(100) < 40,
+			RmPeeled: r.Intn(100) < 50,
+			CasMiss:  r.Intn(100) < 50,
+			CasSym:   r.Intn(100) < 25,
+			GitOps:   r.Intn(100) < 50,
+			Format:   "sha1",
+		}
+		if r.Intn(100) < 20 {
+			f.Format = "sha256"
+		}
+		s := &seq{c: c, g: g, p: pools[f.Format], r: r, idx: i, f: f}
+		c.Seen("formats", f.Format)
+		if p, st := vf.Catch(s.run); p != nil {
+			panic(fmt.Sprintf("%v\n%s", p, st))
+		}
+		c.Count("sequences", 1)
+	})
+	c.Extra("git_invocations", gitx.Calls.Load())
+	c.Floor("sequences", c.Counter("sequences"), nSeq)
+	c.Floor("operations applied", c.Counter("ops"), nSeq*8)
+	c.Floor("go-git reads compared with the map", c.Counter("reads"), nSeq*50)
+	c.Floor("git views agreeing with the map", c.Counter("git_views_agreeing"), nSeq*2)
+	c.Floor("go-git PackRefs calls", c.Counter("op_pack"), nSeq/2)
+	c.Floor("distinct (op, on-disk class) pairs", c.SeenCount("op_x_class"), 25)
+	c.Floor("start kinds", c.SeenCount("start_kinds"), 6)
+	c.Assume("RemoveReference(HEAD) is outside the domain: git does not recognise a directory without HEAD as a repository")
+	c.Assume("where the map already holds a name that is a directory prefix of (or below) the name being set, both refusing (git's behaviour) and accepting (a plain map's behaviour) are allowed; a refusal must leave the store unchanged")
+	c.Assume("all reference values are ids of existing commits/tags; branches hold commits only")
+	c.Assume("git 2.39.5 is the reference reader; packed-refs header traits (peeled, fully-peeled, sorted) are unchanged up to current git")
 }
